@@ -255,8 +255,10 @@ def run(ctx, prog):
         sk = flow.render(flow.Origin(vs).of_operand(plan[0]['rv']['ops'][plan[0]['rv']['fields'].index('search_k')]))
         ctx.inst('C15.R3', vs.short, 'search_k is capped', bool(re.search(r'min\(.*, 10000\)', sk)), 'search_k = %s' % sk[:120])
     sv = ctx.body('C15.R3', 'KyroDBServiceImpl::validate_search_request')
-    ctx.inst('C15.R3', sv.short, 'delegates to the api validator, refusal propagated', bool(sv.calls_to('api_validation::validate_search_request')) and
-             util.result_use(sv, sv.calls_to('api_validation::validate_search_request')[0]) == 'propagated', '')
+    # the refusal reaches the caller either through `?` ('propagated') or because the (mapped) verdict is the function's own result ('returned': same behaviour
+    # written without the `?` + Ok(..) round trip); the executors below are checked for testing that result before the engine
+    sv_use = util.result_use(sv, sv.calls_to('api_validation::validate_search_request')[0]) if sv.calls_to('api_validation::validate_search_request') else 'missing'
+    ctx.inst('C15.R3', sv.short, 'delegates to the api validator, refusal propagated', sv_use in ('propagated', 'returned'), '' if sv_use == 'propagated' else 'validator result is %s' % sv_use)
     n_ex = 0
     for fn in ('KyroDBServiceImpl::handle_search_request', 'KyroDBServiceImpl::handle_search_requests_batch'):
         fam = prog.family(ctx.body('C15.R3', fn))
